@@ -6,6 +6,7 @@ package main
 
 import (
 	"fmt"
+	"os"
 	"go/types"
 	"sort"
 	"strings"
@@ -18,6 +19,8 @@ type Dec struct {
 	V uint64 // chosen alternative (branch: 0/1; choose: index; concretize: value)
 	K byte   // 'b' branch, 'c' choose, 'z' concretize-hit, 'n' concretize-miss
 }
+
+var schedTrace = os.Getenv("GOSX_SCHEDTRACE") != ""
 
 type pathEnd struct {
 	kind string // infeasible | violation | unsupported | unwind | inconclusive | abort | done
@@ -54,6 +57,7 @@ type Violation struct {
 	Model   []NondetVal
 	Trace   []Dec
 	Where   string
+	Yields  []string
 }
 
 type NondetVal struct {
@@ -120,6 +124,7 @@ type Exec struct {
 	initDone   map[*ssa.Package]bool
 	lastAfterFunc *Term
 	onUnwind   int
+	yieldOrder []string
 	loose      []uint64 // translator validation: concrete value stream
 	loosePos   int
 	looseOn    bool
@@ -441,7 +446,7 @@ func (x *Exec) violation(kind, msg string, extra *Term) {
 		x.res.Unknowns = append(x.res.Unknowns, "violation query unknown: "+msg)
 		x.end("inconclusive", "unknown on violation query: "+msg)
 	}
-	v := Violation{Kind: kind, Msg: msg, Harness: x.eng.harnessName, Model: x.buildModel(m), Trace: append([]Dec{}, x.trace...), Where: x.where()}
+	v := Violation{Kind: kind, Msg: msg, Harness: x.eng.harnessName, Model: x.buildModel(m), Trace: append([]Dec{}, x.trace...), Where: x.where(), Yields: append([]string{}, x.yieldOrder...)}
 	x.res.Violations = append(x.res.Violations, v)
 	x.end("violation", msg)
 }
@@ -618,6 +623,9 @@ func (x *Exec) runScheduler(main *Goroutine) {
 			g = en[0]
 		}
 		last = g
+		if schedTrace {
+			fmt.Printf("SCHED pick g%d | %s\n", g.id, x.goroutineStates())
+		}
 		x.cur = g
 		g.wake <- struct{}{}
 		<-x.sched
@@ -657,4 +665,18 @@ func (x *Exec) onDeadlock() {
 		x.violation("deadlock", msg, nil)
 		x.end("infeasible", "deadlock path infeasible")
 	}()
+}
+
+func (x *Exec) goroutineStates() string {
+	var d []string
+	for _, g := range x.goroutines {
+		st := g.waitDesc
+		if g.done {
+			st = "done"
+		} else if g == x.cur {
+			st = "running"
+		}
+		d = append(d, fmt.Sprintf("g%d(%s):%s", g.id, g.name, st))
+	}
+	return strings.Join(d, " ")
 }
